@@ -51,6 +51,10 @@ def cells(tier, seed):
                     for k in (0, 1, 2, 3):
                         out.append({"m": key[0], "r": key[1], "i": i, "kind": kind,
                                     "follow": f, "k": k})
+                    if i == 0:
+                        # the exchange just before the fault ended with a refusal by the device
+                        out.append({"m": key[0], "r": key[1], "i": i, "kind": kind,
+                                    "follow": f, "k": 0, "prelude": 0x6A8F})
     return out
 
 
@@ -139,9 +143,18 @@ def run_case(c):
     i, kind = c["i"], c["kind"]
     w, p = c04.fresh(key)
     h = mw.handler(p)
-    w.faults[w.nex + i] = kind
-    where = "%s/%s fault %s at exchange %d (%s)" % (c["m"], c["r"], kind, i, kinds[i])
     labels = ["kind:" + kind, "req:%s/%s" % key, "k:%d" % c["k"]]
+    if c.get("prelude"):
+        w.faults[w.nex] = c["prelude"]
+        rep0, exc0, ev0, out0 = serve(h, w, (c["m"], "getPubKey"))
+        if exc0 is not None or rep0 is None or rep0["errorcode"] >= 0:
+            return Out(labels + ["prelude-precondition-not-met"], False)
+        w.faults.clear()
+        labels.append("after-device-refusal")
+    w.faults[w.nex + i] = kind
+    where = "%s/%s fault %s at exchange %d (%s)%s" % (
+        c["m"], c["r"], kind, i, kinds[i],
+        " right after a request the device refused" if c.get("prelude") else "")
     rep, exc, ev, out = serve(h, w, key)
     if exc is not None:
         raise Violation("faulted-request-shutdown", "%s: handler raised %s: %s" % (
@@ -216,6 +229,44 @@ def run_repair_fault(c):
         raise Violation("follow-up-not-served", "%s: third request -> %r" % (where, rep3))
     labels.append("repair-retried-after-failed-repair")
     return Out(labels, True)
+
+
+# ---------------------------------------------------------------- the device comes back unfit
+
+def unfit_cases(tier, seed):
+    return [{"m": m, "kind": kind, "version": v, "times": n, "follow": f}
+            for m in ("v5", "v1") for kind in ("read", "write")
+            for v in ([5, 4, 2], [5, 5, 0], [6, 0, 0]) for n in (1, 2, 3)
+            for f in FOLLOW[m][:2]]
+
+
+def run_unfit(c):
+    """After a link failure the device that answers again runs an unsupported signer version:
+    every request gets the device-error code for as long as that lasts (the repair fails its
+    bring-up checks each time anew), and is served once a supported device is back."""
+    m = c["m"]
+    w, p = c04.fresh((m, "getPubKey"))
+    h = mw.handler(p)
+    good = w.signer_version
+    w.faults[w.nex] = c["kind"]
+    rep, exc, ev, out = serve(h, w, (m, "getPubKey"))
+    if exc is not None or rep is None or rep["errorcode"] != devcode(m):
+        raise Violation("faulted-request-code", "%r: %r %r" % (c, out[:60], exc))
+    w.signer_version = tuple(c["version"])
+    for n in range(c["times"]):
+        rep, exc, ev, out = serve(h, w, (m, c["follow"]))
+        where = "%r, request #%d while the device runs %r" % (c, n + 1, c["version"])
+        if exc is not None:
+            return Out(["unfit:stopped"], False)        # stopping is what C09 asks for
+        if rep is None or rep["errorcode"] != devcode(m):
+            raise Violation("served-by-unsupported-device", "%s -> %r, events %r" % (
+                where, out[:80], events(ev)[:12]))
+    w.signer_version = good
+    rep, exc, ev, out = serve(h, w, (m, c["follow"]))
+    if exc is not None or rep is None or rep["errorcode"] != 0:
+        raise Violation("follow-up-not-served", "%r: supported device back -> %r %r" % (
+            c, out[:80], exc))
+    return Out(["unfit:refused-then-served"], True)
 
 
 # ---------------------------------------------------------------- the device was power-cycled
@@ -382,7 +433,8 @@ def run_history(c):
 REQUIRED_LABELS = {t: ["kind:write", "kind:read", "kind:timeout", "repaired",
                        "retry-after-connect-failure", "exempt-exit-step", "history",
                        "repair-retried-after-failed-repair", "repair-fault:timeout",
-                       "repaired-through-bootloader", "power-cycle:SGX",
+                       "repaired-through-bootloader", "power-cycle:SGX", "after-device-refusal",
+                       "unfit:refused-then-served",
                        "faults:2"] + ["req:%s/%s" % k for k in c04.PLAIN_NAMES]
                    for t in ("quick", "thorough")}
 
@@ -393,6 +445,9 @@ def stages(tier):
             EnumStage("repair-faults", repair_fault_cells, run_repair_fault,
                       exhaustive={"quick": True, "thorough": True},
                       budget_s={"quick": 60, "thorough": 300}),
+            EnumStage("comes-back-unfit", unfit_cases, run_unfit,
+                      exhaustive={"quick": True, "thorough": True},
+                      budget_s={"quick": 60, "thorough": 120}),
             EnumStage("power-cycled", power_cycle_cases, run_power_cycle,
                       exhaustive={"quick": True, "thorough": True},
                       budget_s={"quick": 60, "thorough": 120}),
